@@ -1,4 +1,4 @@
-import MlModel.Lemmas.LazyCached
+import MlModel.Lemmas.LazyProto
 import MlModel.Lemmas.LazyPickle
 import MlModel.Lemmas.LruHist
 /-!
@@ -166,6 +166,21 @@ theorem C17_lru_in_eval (e : Expr) (s : St) (hg : Good s) :
   · exact ⟨hg, hg.fnc.bound, hg.obj.bound⟩
   · obtain ⟨g, x⟩ := pres_eval e s hg
     exact ⟨g, by rw [← x.fmax]; exact g.fnc.bound, by rw [← x.omax]; exact g.obj.bound⟩
+
+/-- The protocol is not an assumption about the evaluator but a theorem: for every expression (any
+nesting, flags, handles, errors) `maybe_make` drives **both** caches only through steps of the textbook
+LRU of their capacity (`TB`: look-ups, and insertions of keys that are absent) — `LazyFn.result_`'s
+cache inserts only after a miss of the same key that nested evaluations cannot have filled, the
+object cache only fresh ids.  Hence the cache contents inside the evaluator are textbook-LRU contents
+(`C17_lru` / `C17_lru_history` apply), not only bounded. -/
+theorem C17_lru_protocol (e : Expr) (s : St) (hg : Good s) :
+    TB s.fnc.maxsize s.fnc.data (maybeMake e s).2.fnc.data ∧
+    TB s.obj.maxsize s.obj.data (maybeMake e s).2.obj.data := by
+  unfold maybeMake
+  split
+  · exact ⟨TB.refl _, TB.refl _⟩
+  · have := proto_eval e s hg
+    exact ⟨this.fnc, this.obj⟩
 
 /-! ## C17_missing — a handle that is no longer held raises the dedicated error, never a value -/
 
